@@ -4,10 +4,9 @@ import Mimium.Proofs.LiveCoding
 
 In the wide class of C05 (`noStatefulInArms`) mirgen publishes no cell for the calls of functions WITHOUT state inside the
 `else` arm of an `if`, whereas the reference semantics gives every named call site a child node.  `ExtL cs fs`: the
-layout cells `fs` are the cells `cs` with additional STATELESS cells (no `self`, no word) inserted anywhere, recursively
-inside children.  Then
+layout cells `fs` are the cells `cs` with additional ZERO-SIZED cells (children that own no word) inserted anywhere,
+recursively inside children.  Then
 
-* `serCells_ext`: both layouts give the same flat words for every tree;
 * `confSL_ext`: conformance to the larger layout implies conformance to the smaller one;
 * `agree_deser_ser_ext`: the tree read back (under the small layout) from the words of a tree `A` agrees with `A` on the
   cells of the LARGE layout, provided `A` conforms to the large layout (its stateless children store no `self`).
@@ -16,54 +15,16 @@ namespace Mimium.LiveCoding
 open Mimium.Core Mimium.Cells Mimium.StateTree Mimium.FlatTree Mimium.Publish
 
 mutual
-/-- `f` is `c` with stateless cells added inside (recursion on the larger cell) -/
+/-- `f` is `c` with zero-sized cells added inside (recursion on the larger cell) -/
 def ExtC : LCell → LCell → Prop
   | .mem s, .mem s' => s = s'
   | .delay s n, .delay s' n' => s = s' ∧ n = n'
   | .child s self cs, .child s' self' fs => s = s' ∧ self = self' ∧ ExtL cs fs
   | _, _ => False
-/-- `fs` is `cs` with stateless cells added (anywhere in the list and inside the children) -/
+/-- `fs` is `cs` with zero-sized cells added (anywhere in the list and inside the children) -/
 def ExtL : List LCell → List LCell → Prop
   | cs, [] => cs = []
-  | cs, f :: fs => (∃ c cs', cs = c :: cs' ∧ ExtC c f ∧ ExtL cs' fs) ∨ (statelessCell f = true ∧ ExtL cs fs)
-end
-
-/-! ### stateless cells own no word -/
-
-mutual
-theorem serCell_stateless : ∀ (f : LCell) (st : SNode), statelessCell f = true → serCell f st = []
-  | .mem _, _, h => by simp [statelessCell] at h
-  | .delay _ _, _, h => by simp [statelessCell] at h
-  | .child s self cells, st, h => by
-    simp only [statelessCell, Bool.and_eq_true, Option.isNone_iff_eq_none] at h
-    obtain ⟨rfl, h2⟩ := h
-    simp [serCell, selfWords, serCells_stateless cells (st.childAt s) h2]
-theorem serCells_stateless : ∀ (fs : List LCell) (st : SNode), statelessCells fs = true → serCells fs st = []
-  | [], _, _ => rfl
-  | f :: fs, st, h => by
-    simp only [statelessCells, Bool.and_eq_true] at h
-    simp [serCells, serCell_stateless f st h.1, serCells_stateless fs st h.2]
-end
-
-mutual
-theorem serCell_ext : ∀ (f c : LCell) (st : SNode), ExtC c f → serCell f st = serCell c st
-  | .mem s, c, st, h => by
-    cases c <;> simp only [ExtC] at h
-    subst h; rfl
-  | .delay s n, c, st, h => by
-    cases c <;> simp only [ExtC] at h
-    obtain ⟨rfl, rfl⟩ := h; rfl
-  | .child s self fs, c, st, h => by
-    cases c <;> simp only [ExtC] at h
-    obtain ⟨rfl, rfl, h3⟩ := h
-    simp only [serCell, serCells_ext fs _ (st.childAt _) h3]
-theorem serCells_ext : ∀ (fs cs : List LCell) (st : SNode), ExtL cs fs → serCells fs st = serCells cs st
-  | [], cs, st, h => by simp only [ExtL] at h; subst h; rfl
-  | f :: fs, cs, st, h => by
-    simp only [ExtL] at h
-    rcases h with ⟨c, cs', rfl, h1, h2⟩ | ⟨h1, h2⟩
-    · simp only [serCells, serCell_ext f c st h1, serCells_ext fs cs' st h2]
-    · simp only [serCells, serCell_stateless f st h1, serCells_ext fs cs st h2, List.nil_append]
+  | cs, f :: fs => (∃ c cs', cs = c :: cs' ∧ ExtC c f ∧ ExtL cs' fs) ∨ (f.size = 0 ∧ ExtL cs fs)
 end
 
 mutual
@@ -129,26 +90,29 @@ theorem initSelf_none (x : SNode) : FlatTree.initSelf none x = x := by
 theorem childAt_empty (s : Nat) : SNode.empty.childAt s = SNode.empty := by
   simp [SNode.childAt, SNode.empty, SNode.cells, lookupCell]
 
+theorem delay_size_pos (s n : Nat) : (LCell.delay s n).size ≠ 0 := by
+  simp [LCell.size, delayExtra_eq]
+
 mutual
-/-- an empty child agrees with any child that stores no `self` at stateless cells -/
-theorem agreeC_empty_stateless : ∀ (f : LCell) (A : SNode), statelessCell f = true → ConfS f A → AgreeC f SNode.empty A
-  | .mem _, _, h, _ => by simp [statelessCell] at h
-  | .delay _ _, _, h, _ => by simp [statelessCell] at h
-  | .child s self cells, A, h, hA => by
-    simp only [statelessCell, Bool.and_eq_true, Option.isNone_iff_eq_none] at h
-    obtain ⟨rfl, h2⟩ := h
-    simp only [ConfS, SelfOkS] at hA
-    simp only [AgreeC, childAt_empty]
-    refine ⟨?_, agreeL_empty_stateless cells _ h2 hA.2⟩
-    rw [initSelf_none, initSelf_none, hA.1]; rfl
-theorem agreeL_empty_stateless : ∀ (fs : List LCell) (A : SNode), statelessCells fs = true → ConfSL fs A →
-    AgreeL fs SNode.empty A
-  | [], _, _, _ => by simp [AgreeL]
-  | f :: fs, A, h, hA => by
-    simp only [statelessCells, Bool.and_eq_true] at h
-    simp only [ConfSL] at hA
-    simp only [AgreeL]
-    exact ⟨agreeC_empty_stateless f A h.1 hA.1, agreeL_empty_stateless fs A h.2 hA.2⟩
+/-- a zero-sized cell: the empty node conforms -/
+theorem confS_zero_empty : ∀ (f : LCell) (T : SNode), f.size = 0 → lookupCell T.cells f.site = none → ConfS f T
+  | .mem _, _, h, _ => by simp [LCell.size] at h
+  | .delay s n, _, h, _ => absurd h (delay_size_pos s n)
+  | .child s self cells, T, h, hn => by
+    simp only [LCell.size] at h
+    simp only [LCell.site] at hn
+    have hch : T.childAt s = SNode.empty := by simp [SNode.childAt, hn]
+    simp only [ConfS, hch]
+    refine ⟨?_, confSL_zero_empty cells (by omega)⟩
+    cases self with
+    | none => simp [SelfOkS, SNode.empty, SNode.selfv]
+    | some sh => intro v hv; simp [SNode.empty, SNode.selfv] at hv
+theorem confSL_zero_empty : ∀ (fs : List LCell), sizeCells fs = 0 → ConfSL fs SNode.empty
+  | [], _ => by simp [ConfSL]
+  | f :: fs, h => by
+    simp only [sizeCells] at h
+    simp only [ConfSL]
+    exact ⟨confS_zero_empty f SNode.empty (by omega) rfl, confSL_zero_empty fs (by omega)⟩
 end
 
 theorem childAt_of_lookup_none (T : SNode) (s : Nat) (h : lookupCell T.cells s = none) : T.childAt s = SNode.empty := by
@@ -207,18 +171,12 @@ theorem agreeL_ext : ∀ (fs cs : List LCell) (T A : SNode), ExtL cs fs → LayO
     · have hnot : f.site ∉ sitesOf cs := fun hm => hl.2.1 (extL_sites fs cs h2 _ hm)
       have hnone : lookupCell T.cells f.site = none := hs f.site (by simp [sitesOf]) hnot
       refine ⟨?_, agreeL_ext fs cs T A h2 hl.2.2 (fun s hsf hn => hs s (by simp [sitesOf, hsf]) hn) ho hT hA.2 hw⟩
-      cases f with
-      | mem _ => simp [statelessCell] at h1
-      | delay _ _ => simp [statelessCell] at h1
-      | child s self cells =>
-        have h1' := h1
-        simp only [statelessCell, Bool.and_eq_true, Option.isNone_iff_eq_none] at h1'
-        obtain ⟨rfl, h2'⟩ := h1'
-        simp only [LCell.site] at hnone
-        simp only [ConfS, SelfOkS] at hA
-        simp only [AgreeC, childAt_of_lookup_none T s hnone]
-        refine ⟨?_, agreeL_empty_stateless cells _ h2' hA.1.2⟩
-        rw [initSelf_none, initSelf_none, hA.1.1]; rfl
+      have hT' : ConfS f T := confS_zero_empty f T h1 hnone
+      refine agreeC_of_words f T A hT' hA.1 ?_
+      have l1 := serCell_length f T (confS_conf f T hT')
+      have l2 := serCell_length f A (confS_conf f A hA.1)
+      rw [h1] at l1 l2
+      rw [List.eq_nil_of_length_eq_zero l1, List.eq_nil_of_length_eq_zero l2]
 end
 
 /-! ### canonical trees have no cells outside their layout -/
